@@ -16,7 +16,9 @@ GEN_DEPS: List[str] = []
 ALLOWED_AXIOMS: List[str] = []
 THEOREMS: Dict[str, str] = {
     "C04_html_realises_grid": "full",
+    "C04_geometry_complete": "full",
     "C04_html_realises_tree": "full",
+    "C04_every_row_nonempty": "full",
     "C04_tds_are_cells": "full",
     "C04_span_attrs": "full",
     "C04_classes": "full",
@@ -267,6 +269,30 @@ def replay(inp: Any) -> Case:
 
 def known_match(finding: Any, case: Case) -> bool:
     return False
+
+
+def search(seed: int, budget_s: float) -> List[Case]:
+    """Hunt for a tree on which the property text fails (driver calls this when something is broken)."""
+    import time
+    t0 = time.time()
+    rng = random.Random(seed * 104729 + 4)
+    out: List[Case] = []
+    hits = 0
+    budget = min(budget_s, 60.0)
+    for sk in G.exhaustive_skeletons(4, double_wrap_upto=3, refs_upto=2):
+        c = make_case(G.decorate(rng, sk), rng.choice(PREFIXES))
+        if c.violation:
+            out.append(c)
+            hits += 1
+        if hits >= 3 or time.time() - t0 > budget / 2:
+            break
+    while hits < 3 and time.time() - t0 < budget:
+        for sk in G.random_skeletons(rng, 50):
+            c = make_case(G.decorate(rng, sk), rng.choice(PREFIXES))
+            if c.violation:
+                out.append(c)
+                hits += 1
+    return out
 
 
 IMPORTS = ["From Coq Require Import String.",
